@@ -16,6 +16,7 @@ func init() { Registry["C01"] = c01 }
 const goDid = "github.com/nuts-foundation/go-did"
 
 func c01(r *Report) {
+	defer c01Seed7(r)
 	p := r.P
 	const ver = "vcr/verifier"
 	r.Explanation = "Static decision that every 'valid' verdict for a credential or presentation is reachable only through the pass edge of each conjunct of the property: (1) verifier.Verify succeeds only via the type validator, the at-most-two-types rule, the revocation lookup (err nil and not revoked), the status-list check not reporting revoked, issuer trust for every type (when trust is required), the validity window, and — when signatures are checked — issuer DID parse, issuer resolution with AllowDeactivated=false, and the signature verification in tail position; (2) doVerifyVP succeeds only via presenter==subject of every credential, holder==subject, the VP signature, and Verify of every embedded credential, whose signature check may be skipped only for credentials issued by the presentation's holder (self-attested); (3) both signature algorithms bind the verification method / kid to the claimed issuer, check the proof's validity window, resolve the key at the validation time and verify; (4) the issuer stores/publishes only after all-fields-defined and type validation; the wallet lists only credentials that pass Verify; (5) API callers verify embedded credentials."
